@@ -53,6 +53,15 @@ type nxSM struct {
 
 func (s *nxSM) Update(e sm.Entry) (sm.Result, error) {
 	s.h.c.onUpdate(s.h, s, e)
+	// C01: a linearizable read is released when the published applied index
+	// reaches its ReadIndex; that index must therefore never run ahead of the
+	// entries the user state machine has actually been given (the step worker
+	// may look at it while the apply worker is in the middle of a batch)
+	if n := s.h.node; n != nil && n.sm != nil {
+		if la := n.sm.GetLastApplied(); la >= e.Index {
+			s.h.c.fail("C01: replica %d publishes applied index %d while its user state machine is only being given entry %d", s.h.id, la, e.Index)
+		}
+	}
 	s.version++
 	s.lastIdx = e.Index
 	if len(e.Cmd) == 8 {
